@@ -19,8 +19,8 @@ ID = "C19"
 CASES = {"quick": 640, "thorough": 8000}
 FLOOR = {"quick": 520, "thorough": 6500}
 FLOOR_COUNTERS = {
-    "quick": {"membership_lps": 9000, "height_lps": 14000, "queries_judged": 9000, "relation_fits": 1000, "hulls_with_unselected": 400, "estimators_with_a_past": 500, "non_float64_features": 150, "non_default_tolerance": 120, "configured_by_attribute_assignment": 500, "calls_with_more_than_400000_queries": 6, "caller_buffers_overwritten_after_fit": 200, "rejected_calls_in_the_history": 300, "index_arrays_counting_from_the_end_shared_across_tables": 40},
-    "thorough": {"membership_lps": 140000, "height_lps": 220000, "queries_judged": 140000, "relation_fits": 14000, "hulls_with_unselected": 5000, "estimators_with_a_past": 7000, "non_float64_features": 2000, "non_default_tolerance": 1600, "configured_by_attribute_assignment": 7000, "calls_with_more_than_400000_queries": 80, "caller_buffers_overwritten_after_fit": 3000, "rejected_calls_in_the_history": 4000, "index_arrays_counting_from_the_end_shared_across_tables": 500},
+    "quick": {"membership_lps": 7500, "height_lps": 12000, "queries_judged": 9000, "relation_fits": 1000, "hulls_with_unselected": 400, "estimators_with_a_past": 500, "non_float64_features": 150, "non_default_tolerance": 120, "configured_by_attribute_assignment": 500, "calls_with_more_than_400000_queries": 6, "caller_buffers_overwritten_after_fit": 200, "rejected_calls_in_the_history": 300, "index_arrays_counting_from_the_end_shared_across_tables": 40},
+    "thorough": {"membership_lps": 115000, "height_lps": 180000, "queries_judged": 140000, "relation_fits": 14000, "hulls_with_unselected": 5000, "estimators_with_a_past": 7000, "non_float64_features": 2000, "non_default_tolerance": 1600, "configured_by_attribute_assignment": 7000, "calls_with_more_than_400000_queries": 80, "caller_buffers_overwritten_after_fit": 3000, "rejected_calls_in_the_history": 4000, "index_arrays_counting_from_the_end_shared_across_tables": 500},
 }
 RULE = (
     "case = samples with 1-3 hull dimensions and 0-3 extra high-dimensional columns placed in any column order (low_dim_idx in "
